@@ -40,7 +40,10 @@ pub struct Parser {
     pub cheap: bool,
     pub run: fn(&[u8], u64) -> R,
     pub seeds: fn(&mut Rng) -> Vec<Seed>,
+    /// auxiliary numbers the model of this cell needs (trained tables, CPU features); empty for most
+    pub aux: fn() -> Vec<u64>,
 }
+pub fn no_aux() -> Vec<u64> { vec![] }
 
 pub const TRAIN: &[u8] = b"the quick brown fox jumps over the lazy dog. the quick brown fox jumps again and again; \
 pack my box with five dozen liquor jugs! 0123456789 0123456789 AAAAAAAAAAAAAAAABBBBBBBBCCCCDDE \
@@ -612,11 +615,21 @@ fn seeds_sorted_uint_vec(r: &mut Rng) -> Vec<Seed> {
 fn seeds_zip_offset(_r: &mut Rng) -> Vec<Seed> {
     use zipora::blob_store::{ZipOffsetBlobStoreBuilder, ZipOffsetBlobStoreConfig};
     let mut v = vec![];
-    for lvl in [0u8, 3] {
+    // (compression, checksum level, records): the third and fourth have a content section that is a multiple
+    // of 16 bytes (no padding), the others need 1..15 bytes of padding
+    let recs: [(u8, u8, Vec<&[u8]>); 6] = [
+        (0, 2, vec![&b"first record"[..], &b""[..], &TRAIN[..70]]),
+        (3, 2, vec![&b"first record"[..], &b""[..], &TRAIN[..70]]),
+        (0, 2, vec![&b"twelve bytes"[..]]),
+        (0, 0, vec![&TRAIN[..20], &TRAIN[20..32]]),
+        (0, 0, vec![&TRAIN[..33], &b""[..], &b"x"[..]]),
+        (0, 3, vec![]),
+    ];
+    for (lvl, ck, rs) in recs {
         let r = crate::util::guarded(|| -> Option<Vec<u8>> {
-            let cfg = ZipOffsetBlobStoreConfig { compress_level: lvl, ..Default::default() };
+            let cfg = ZipOffsetBlobStoreConfig { compress_level: lvl, checksum_level: ck, ..Default::default() };
             let mut b = ZipOffsetBlobStoreBuilder::with_config(cfg).ok()?;
-            for m in [&b"first record"[..], &b""[..], &TRAIN[..70]] { b.add_record(m).ok()?; }
+            for m in rs.iter() { b.add_record(m).ok()?; }
             let s = b.finish().ok()?;
             let mut out = Vec::new();
             s.save_to_writer(&mut out).ok()?;
@@ -878,7 +891,10 @@ fn seeds_comp_mono<const A: usize>(_r: &mut Rng) -> Vec<Seed> {
 
 macro_rules! P {
     ($name:expr, $model:expr, $arg:expr, $cheap:expr, $run:expr, $seeds:expr) => {
-        Parser { name: $name, model: $model, has_arg: $arg, cheap: $cheap, run: $run, seeds: $seeds }
+        Parser { name: $name, model: $model, has_arg: $arg, cheap: $cheap, run: $run, seeds: $seeds, aux: no_aux }
+    };
+    ($name:expr, $model:expr, $arg:expr, $cheap:expr, $run:expr, $seeds:expr, $aux:expr) => {
+        Parser { name: $name, model: $model, has_arg: $arg, cheap: $cheap, run: $run, seeds: $seeds, aux: $aux }
     };
 }
 
@@ -943,8 +959,8 @@ pub fn parsers() -> Vec<Parser> {
         P!("pa_zip/decode_match", 70, false, true, p_pz_match, seeds_pz_matches),
         P!("pa_zip/decode_matches", 71, false, true, p_pz_matches, seeds_pz_matches),
         P!("PaZipCompressor::decompress", 0, false, false, p_pazip, seeds_pazip),
-        P!("ZipOffsetBlobStore::load_from_reader", 0, false, false, p_zip_offset, seeds_zip_offset),
-        P!("SortedUintVec::from_bytes", 0, false, false, p_sorted_uint_vec, seeds_sorted_uint_vec),
+        P!("ZipOffsetBlobStore::load_from_reader", 91, false, false, p_zip_offset, seeds_zip_offset),
+        P!("SortedUintVec::from_bytes", 90, false, false, p_sorted_uint_vec, seeds_sorted_uint_vec),
         P!("ZReorderMap::open", 0, false, false, p_reorder_map, seeds_reorder_map),
         P!("MmapVec::open", 0, false, false, p_mmap_vec, seeds_mmap_vec),
         P!("MmapDataInput", 0, false, false, p_mmap_input, seeds_mmap_input),
